@@ -54,7 +54,11 @@ OkOf(q) == IF Eq(q, One) THEN "T" ELSE IF IsZero(q) THEN "F" ELSE "P"
    A is a k x n integer matrix (k <= n): rows = the shorter of the two lists, columns = the longer one.  Every
    one-to-one assignment of the padded lists pairs each row with a distinct column (the remaining columns meet
    zero-credit padding), i.e. it is an injection 1..k -> 1..n.                                              *)
-Injections(k, n) == {f \in [1..k -> 1..n] : \A a, b \in 1..k : a < b => f[a] # f[b]}
+\* all of them, built row by row (the definition {f \in [1..k -> 1..n] : f injective} costs n^k evaluations)
+RECURSIVE Injections(_, _)
+Injections(k, n) == IF k = 0 THEN {<<>>}
+                    ELSE {Append(f, j) : f \in Injections(k - 1, n), j \in 1..n} \ {Append(f, f[a]) : f \in Injections(k - 1, n), a \in 1..(k - 1)}
+InjectionsLaw(k, n) == Injections(k, n) = {f \in [1..k -> 1..n] : \A a, b \in 1..k : a < b => f[a] # f[b]}
 RECURSIVE SumF(_, _, _), BestDFS(_, _, _, _, _)
 SumF(A, f, a) == IF a = 0 THEN 0 ELSE A[a][f[a]] + SumF(A, f, a - 1)
 \* the optimum as a depth-first search over all assignments (row a is given every column not yet used)
@@ -68,6 +72,16 @@ OptimalAssignments(A, k, n) == LET b == BestTotal(A, k, n) IN {f \in Injections(
 OptimumLaw(A, k, n) == LET b == BestTotal(A, k, n) IN
   /\ \A f \in Injections(k, n) : SumF(A, f, k) <= b
   /\ \E f \in Injections(k, n) : SumF(A, f, k) = b
+
+\* the same optimum in the cost form used by assignment solvers: on the n x n square padded with zero-credit rows /
+\* columns, the cheapest complete assignment of costs D - w costs exactly n * D - (best total credit)
+RECURSIVE MinOverPerms(_, _, _, _, _, _, _)
+PadCost(Wi, nE, nS, D, i, j) == D - (IF i <= nE /\ j <= nS THEN Wi[i][j] ELSE 0)
+MinOverPerms(Wi, nE, nS, D, n, i, used) ==
+  IF i > n THEN 0
+  ELSE LET opts == {PadCost(Wi, nE, nS, D, i, j) + MinOverPerms(Wi, nE, nS, D, n, i + 1, used \cup {j}) : j \in (1..n) \ used}
+       IN CHOOSE x \in opts : \A y \in opts : x <= y
+PaddedMinCost(Wi, nE, nS, D) == LET n == IF nE >= nS THEN nE ELSE nS IN MinOverPerms(Wi, nE, nS, D, n, 1, {})
 
 (* ------------------------------------------------------------------ optimum by LP-duality certificate
    For lists too long for brute force the optimum is *certified*: cost[i][j] = D - w[i][j] on the padded n x n
